@@ -13,6 +13,7 @@
    C03_valid_names / add_fixed_bound, C03_not_predeclared_universe — true of the tracker after fixes/C03-3 —,
    C03_local_name_is_lowercased_words), [parse_hyp] (property C15) and [cbq_hyp] (Go's strconv). *)
 Require Import Gengo.Base.Bytes Gengo.Model.TypeLit Gengo.Spec.TypeLit Gengo.Proofs.TypeLit.
+Require Import Gengo.Proofs.TypeLitWitness.
 
 (* Rendering never panics on a type of the grammar. *)
 Theorem C11_total :
@@ -128,8 +129,22 @@ Definition ex_parse : bytes -> option tref :=
   fun _ => Some (TRef [] (bs "List") (TRCons (TRef (bs "b/o") (bs "Item") TRNil) TRNil)).
 Definition ex_env : renv := [(bs "x/o", bs "o")].
 
+(* [cbq_hyp] is satisfiable — by strconv.CanBackquote restricted to ASCII ([can_backquote_ascii]: no backquote, no DEL,
+   no control byte but TAB, no byte >= 0x80), NOT by the constant [fun _ => true]; the Examples below use the correct
+   instance. *)
+Theorem C11_cbq_hyp_satisfiable :
+  cbq_hyp can_backquote_ascii /\ ~ cbq_hyp (fun _ => true) /\
+  can_backquote_ascii (of_string "json:""l,omitempty"" yaml:""x""") = true /\
+  can_backquote_ascii (bs "a" ++ [backquote] ++ bs "b") = false /\
+  can_backquote_ascii (bs "a" ++ [cr]) = false /\
+  can_backquote_ascii (bs "a" ++ [ascii_of_N 10]) = false /\
+  can_backquote_ascii (bs "a" ++ [ascii_of_N 9] ++ bs "b") = true /\
+  can_backquote_ascii [ascii_of_N 195; ascii_of_N 169] = false.
+Proof. exact (conj can_backquote_ascii_hyp (conj const_true_violates_cbq_hyp can_backquote_ascii_samples)). Qed.
+Print Assumptions C11_cbq_hyp_satisfiable.
+
 Example C11_example_text :
-  match type_lit ex_pick ex_parse (bs "t") (fun _ => true) true true (view_of ex_g) ex_env with
+  match type_lit ex_pick ex_parse (bs "t") can_backquote_ascii true true (view_of ex_g) ex_env with
   | Ok (a, e') =>
       print (fun s => s) a = bs "struct {E error" ++ [nl] ++ bs "L ao.List[bo.Item] `json:""l""`" ++ [nl] ++ bs "}"
       /\ e' = [(bs "x/o", bs "o"); (bs "b/o", bs "bo"); (bs "a/o", bs "ao")]
@@ -217,7 +232,7 @@ Print Assumptions C11_roundtrip_fresh_concrete.
 (* non-vacuity, with the real naming: the example of above rendered by the real tracker model and the real parser model.
    a/o and b/o both want the name o, which x/o already has: a/o -> ao, b/o -> bo. *)
 Example C11_example_concrete :
-  match type_lit the_pick parse_c15 (bs "t") (fun _ => true) true true (view_of ex_g) ex_env with
+  match type_lit the_pick parse_c15 (bs "t") can_backquote_ascii true true (view_of ex_g) ex_env with
   | Ok (a, e') =>
       print (fun s => s) a = bs "struct {E error" ++ [nl] ++ bs "L ao.List[bo.Item] `json:""l""`" ++ [nl] ++ bs "}"
       /\ e' = [(bs "x/o", bs "o"); (bs "b/o", bs "bo"); (bs "a/o", bs "ao")]
@@ -258,3 +273,48 @@ Theorem C11_type_leaf_denotes_in_file :
               resolve e' self a = Some (canon g).
 Proof. exact type_leaf_denotes. Qed.
 Print Assumptions C11_type_leaf_denotes_in_file.
+
+(* non-vacuity of C11_type_leaf_denotes_in_file (Proofs/TypeLitWitness.v): the file of package example.com/m/t imports
+   x/o as o, b/o as bo, a/o as ao and net/url as url ([wit_table]); the leaf is
+     struct { E error; L ao.List[bo.Item] `json:"l,omitempty"`; M map[string][]*o.Node `x:"a<TAB>b"`; Own *Local; U url.URL }
+   ([wit_g]: four foreign packages, one type of the target package itself, two tags).  Every hypothesis holds, and the
+   theorem gives — for the reflect and for the go/types presentation — an expression that leaves the table alone and
+   reads back as the type; the last Example computes the text. *)
+Example C11_type_leaf_hypotheses :
+  cbq_hyp can_backquote_ascii /\ table_ok the_pre wit_table /\ ~ In wit_self (map fst wit_table) /\
+  in_domain all_tags wit_self wit_g = true /\ locals_exported wit_self wit_g = true /\
+  foreign_pkgs wit_self wit_g = [bs "a/o"; bs "b/o"; bs "x/o"; bs "net/url"] /\
+  (forall p, In p (foreign_pkgs wit_self wit_g) -> In p (map fst wit_table)).
+Proof.
+  exact (conj can_backquote_ascii_hyp (conj wit_table_ok (conj wit_self_not_imported
+        (conj (proj1 wit_g_domain) (conj (proj2 wit_g_domain) (conj wit_g_foreign_pkgs_nonempty wit_g_imported)))))).
+Qed.
+
+Example C11_type_leaf_instance :
+  (exists a, ident_frag the_pick parse_c15 wit_self can_backquote_ascii true true (IdR (view_of wit_g)) wit_table
+             = Ok (a, wit_table) /\ resolve wit_table wit_self a = Some (canon wit_g)) /\
+  (exists a, ident_frag the_pick parse_c15 wit_self can_backquote_ascii true true (IdT (view_of wit_g)) wit_table
+             = Ok (a, wit_table) /\ resolve wit_table wit_self a = Some (canon wit_g)).
+Proof.
+  exact (conj
+    (C11_type_leaf_denotes_in_file wit_self can_backquote_ascii can_backquote_ascii_hyp wit_table (IdR (view_of wit_g)) wit_g
+       wit_table_ok wit_self_not_imported (or_introl eq_refl) (proj1 wit_g_domain) (proj2 wit_g_domain) wit_g_imported)
+    (C11_type_leaf_denotes_in_file wit_self can_backquote_ascii can_backquote_ascii_hyp wit_table (IdT (view_of wit_g)) wit_g
+       wit_table_ok wit_self_not_imported (or_intror (or_introl eq_refl)) (proj1 wit_g_domain) (proj2 wit_g_domain)
+       wit_g_imported)).
+Qed.
+
+Example C11_type_leaf_text :
+  match ident_frag the_pick parse_c15 wit_self can_backquote_ascii true true (IdT (view_of wit_g)) wit_table with
+  | Ok (a, e') =>
+      print (fun s => s) a =
+        bs "struct {E error" ++ [nl] ++
+        bs "L ao.List[bo.Item] `json:""l,omitempty""`" ++ [nl] ++
+        bs "M map[string][]*o.Node `x:""a" ++ [ascii_of_N 9] ++ bs "b""`" ++ [nl] ++
+        bs "Own *Local" ++ [nl] ++
+        bs "U url.URL" ++ [nl] ++ bs "}"
+      /\ e' = wit_table
+      /\ resolve e' wit_self a = Some (canon wit_g)
+  | _ => False
+  end.
+Proof. exact wit_leaf_computed. Qed.
